@@ -219,7 +219,7 @@ func (c *MapCodec) readMapEntry(mp, k unsafe.Pointer, data []byte) (int, error) 
 		typedmemclr(unpackEFace(c.rtype.Key()).data, k)
 		n, err := c.keyCodec.Read(data[offset:fieldEnd], k, wt)
 		if err != nil {
-			return 0, fmt.Errorf("failed reading key field of %s. %w", c.rtype.Name(), err)
+			return 0, &nestedError{where: "failed reading key field of " + c.rtype.Name(), err: err}
 		}
 		offset += n
 
@@ -244,7 +244,7 @@ func (c *MapCodec) readMapEntry(mp, k unsafe.Pointer, data []byte) (int, error) 
 		for {
 			n, err := c.valueCodec.Read(data[offset:fieldEnd], val, wt)
 			if err != nil {
-				return 0, fmt.Errorf("failed reading value field of %s. %w", c.rtype.Name(), err)
+				return 0, &nestedError{where: "failed reading value field of " + c.rtype.Name(), err: err}
 			}
 			offset += n
 			if offset >= len(data) {
